@@ -600,8 +600,8 @@ fn gen(rng: &mut Rng, tier: &str) -> Vec<(String, Value)> {
         for (wi, walk) in walks.iter().enumerate() {
             let walk: Vec<(usize, usize, usize)> = walk.iter().map(|(a, v, w)| (*a, (*v).min(h.versions.len() - 1), *w)).collect();
             if !thorough && hi >= 1 && wi == 1 { continue }
-            // quick tier: the full fault list on the first two histories, every fourth fault on the others
-            let stride = if thorough || (hi < 2 && wi == 0) { 1 } else if wi == 1 { 2 } else { 4 };
+            // quick tier: the full fault list on the first history, every fifth fault on the others
+            let stride = if thorough || (hi < 1 && wi == 0) { 1 } else if wi == 1 { 2 } else { 5 };
             let honest = honest_walk(std::slice::from_ref(h), &walk);
             for t in 0..honest.len() {
                 for (fi, (name, step, cfg)) in faults_of(&honest[t], h, walk[t].1).into_iter().enumerate() {
@@ -618,7 +618,7 @@ fn gen(rng: &mut Rng, tier: &str) -> Vec<(String, Value)> {
 
     // (c) a fault in a delta file together with a failing snapshot in the same run, then the honest server again
     for (hi, h) in hists.iter().enumerate() {
-        if !thorough && hi >= 2 { continue }
+        if !thorough && hi >= 1 { continue }
         let last = h.versions.len() - 1;
         let walk = [(0usize, 0usize, 5usize), (0, last.min(2), 5), (0, last.min(2), 5), (0, last, 5)];
         let honest = honest_walk(std::slice::from_ref(h), &walk);
@@ -637,7 +637,7 @@ fn gen(rng: &mut Rng, tier: &str) -> Vec<(String, Value)> {
     }
 
     // (d) random: two sessions, the server moves forward, stays, goes back or changes session; several faults per run
-    let n = if thorough { 6000 } else { 500 };
+    let n = if thorough { 6000 } else { 400 };
     for _ in 0..n {
         let (l1, l2) = (rng.range(2, 5) as usize, rng.range(1, 4) as usize);
         let hs = vec![random_history(rng, 1, l1), random_history(rng, 2, l2)];
@@ -687,8 +687,54 @@ fn gen(rng: &mut Rng, tier: &str) -> Vec<(String, Value)> {
     cases
 }
 
-fn main() {
+//------------ process pool ----------------------------------------------------------------------------------
+//
+// The archive code maps and unmaps files all the time; with many threads in one address space that serialises on
+// the kernel's mmap lock.  So the cases are spread over single-threaded worker processes (`c25 worker`: one
+// case per input line on stdin, one result line on stdout), each with its own fetch server and HTTP client.
+
+struct Worker { child: std::process::Child, stdin: std::process::ChildStdin, stdout: std::io::BufReader<std::process::ChildStdout> }
+thread_local! { static WORKER: std::cell::RefCell<Option<Worker>> = const { std::cell::RefCell::new(None) }; }
+
+fn via_worker(input: &Value) -> CaseOut {
+    use std::io::{BufRead, Write};
+    WORKER.with(|w| {
+        let mut w = w.borrow_mut();
+        if w.is_none() {
+            let mut child = std::process::Command::new(std::env::current_exe().expect("current_exe")).arg("worker")
+                .stdin(std::process::Stdio::piped()).stdout(std::process::Stdio::piped()).spawn().expect("spawn worker");
+            let stdin = child.stdin.take().unwrap();
+            let stdout = std::io::BufReader::new(child.stdout.take().unwrap());
+            *w = Some(Worker { child, stdin, stdout });
+        }
+        let wk = w.as_mut().unwrap();
+        writeln!(wk.stdin, "{}", input).expect("worker stdin");
+        wk.stdin.flush().expect("worker stdin");
+        let mut line = String::new();
+        wk.stdout.read_line(&mut line).expect("worker stdout");
+        if line.is_empty() { let _ = wk.child.kill(); panic!("worker died on input {}", input); }
+        let v: Value = serde_json::from_str(&line).expect("worker result");
+        CaseOut { obs: v["obs"].clone(), coq: v["coq"].as_str().unwrap().to_string(), nontrivial: v["nontrivial"].as_bool().unwrap() }
+    })
+}
+
+fn worker() {
+    use std::io::{BufRead, Write};
     let env = Env { srv: Server::start(), seq: AtomicU64::new(0) };
-    let threads = std::env::var("C25_THREADS").ok().and_then(|s| s.parse().ok()).unwrap_or(12);
-    drive_par(gen, |i| run(i, &env), threads);
+    let stdin = std::io::stdin();
+    let mut out = std::io::stdout();
+    for line in stdin.lock().lines() {
+        let Ok(line) = line else { break };
+        if line.trim().is_empty() { continue }
+        let input: Value = serde_json::from_str(&line).expect("worker input");
+        let res = run(&input, &env);
+        writeln!(out, "{}", json!({"obs": res.obs, "coq": res.coq, "nontrivial": res.nontrivial})).unwrap();
+        out.flush().unwrap();
+    }
+}
+
+fn main() {
+    if std::env::args().nth(1).as_deref() == Some("worker") { return worker() }
+    let threads = std::env::var("C25_WORKERS").ok().and_then(|s| s.parse().ok()).unwrap_or(12);
+    drive_par(gen, via_worker, threads);
 }
